@@ -94,6 +94,7 @@ namespace vd
     static bool g_monitor = false, g_trace = false;
     static std::map<const void*, ctx_shadow> g_shadow;   // per context
     static std::map<const void*, int> g_ctx_ids;
+    static int g_next_ctx_id = 0;
     static js::val g_violations = js::val::array();
     static long long g_mon_states = 0, g_mon_checks = 0;
     static size_t g_max_height = 0, g_max_depth = 0;
@@ -106,7 +107,7 @@ namespace vd
     {
         auto it = g_ctx_ids.find(p);
         if (it != g_ctx_ids.end()) return it->second;
-        int n = (int)g_ctx_ids.size();
+        int n = g_next_ctx_id++;      // never reused: a freed context's address may be handed out again
         g_ctx_ids[p] = n;
         return n;
     }
@@ -258,6 +259,7 @@ namespace vd
         case verif::event::context_erased:
             if (g_trace && g_slices.size() > 0) { (*g_slices.a)[g_slices.size() - 1].set("erased", true); }
             if (g_monitor) { auto sp = rt.context_active_as_shared(); g_shadow.erase(sp.get()); }
+            { auto sp = rt.context_active_as_shared(); g_ctx_ids.erase(sp.get()); }
             break;
         default: break;
         }
@@ -266,7 +268,7 @@ namespace vd
     void install_hooks(bool monitor, bool slice_trace_on, size_t slice)
     {
         g_monitor = monitor; g_trace = slice_trace_on;
-        g_shadow.clear(); g_ctx_ids.clear();
+        g_shadow.clear(); g_ctx_ids.clear(); g_next_ctx_id = 0;
         g_violations = js::val::array(); g_slices = js::val::array();
         g_mon_states = g_mon_checks = 0; g_max_height = g_max_depth = 0;
         g_cnt = counters();
